@@ -553,3 +553,70 @@ pub fn selftest<C: Check>(c: &C, n: u64) -> Result<(), String> {
     }
     Ok(())
 }
+
+// ---------------------------------------------------------------------------
+// Two arms under one property id (e.g. C10 = gate/entry lockstep + transparency pairs).
+
+#[derive(Clone, Serialize, serde::Deserialize)]
+pub enum ArmScn<A, B> {
+    A(A),
+    B(B),
+}
+pub struct Both<A: Check, B: Check> {
+    pub id: &'static str,
+    pub a: A,
+    pub b: B,
+    /// out of 8 runs, how many go to arm A
+    pub a_share: u64,
+    pub rule: &'static str,
+}
+impl<A: Check, B: Check> Check for Both<A, B> {
+    type Scn = ArmScn<A::Scn, B::Scn>;
+    fn id(&self) -> &'static str {
+        self.id
+    }
+    fn meta(&self) -> Meta {
+        let (ma, mb) = (self.a.meta(), self.b.meta());
+        let _ = mb;
+        Meta { rule: self.rule, ..ma }
+    }
+    fn quick_runs(&self) -> u64 {
+        self.a.quick_runs() + self.b.quick_runs()
+    }
+    fn generate(&self, rng: &mut Rng, tier: Tier, index: u64) -> Self::Scn {
+        if index % 8 < self.a_share {
+            ArmScn::A(self.a.generate(rng, tier, index))
+        } else {
+            ArmScn::B(self.b.generate(rng, tier, index))
+        }
+    }
+    fn entropy(&self, scn: &Self::Scn) -> u64 {
+        match scn {
+            ArmScn::A(s) => self.a.entropy(s),
+            ArmScn::B(s) => self.b.entropy(s),
+        }
+    }
+    fn execute(&self, scn: &Self::Scn) -> Outcome {
+        match scn {
+            ArmScn::A(s) => {
+                let mut o = self.a.execute(s);
+                o.bump("arm.a");
+                o
+            }
+            ArmScn::B(s) => {
+                let mut o = self.b.execute(s);
+                o.bump("arm.b");
+                if let Some(f) = o.fingerprint.as_mut() {
+                    *f ^= 0xB;
+                }
+                o
+            }
+        }
+    }
+    fn shrink(&self, scn: &Self::Scn) -> Vec<Self::Scn> {
+        match scn {
+            ArmScn::A(s) => self.a.shrink(s).into_iter().map(ArmScn::A).collect(),
+            ArmScn::B(s) => self.b.shrink(s).into_iter().map(ArmScn::B).collect(),
+        }
+    }
+}
